@@ -401,12 +401,23 @@ theorem inclFinish_frame (r : Res) (s : St) (h : s.w.failAt = none) :
   unfold inclFinish
   constructor
   · cases r.err with
-    | some e => exact h
+    | some e =>
+      simp only
+      split
+      · exact h
+      · simp only [Res.orErr, St.write, Writer.write, h]; rfl
     | none => simp only [St.write, Writer.write, h]; rfl
   · intro pl po k
     simp only [Res.pre]
     cases r.err with
-    | some e => rfl
+    | some e =>
+      have ho : (r.st.pre pl [] 0).w.out = r.st.w.out := by simp [St.pre, Writer.pre]
+      simp only [ho]
+      by_cases hc : (r.st.w.out.isEmpty || e == .outOfFuel) = true
+      · simp only [hc, if_true]; rfl
+      · simp only [hc, Bool.false_eq_true, if_false]
+        simp only [Res.orErr, St.write, Writer.write, St.pre, Writer.pre, Ctx.pre, h, Res.pre, ok]
+        simp [List.append_assoc, Nat.add_assoc]
     | none =>
       simp only [St.write, Writer.write, St.pre, Writer.pre, Ctx.pre, h, Res.pre, ok]
       simp [List.append_assoc, Nat.add_assoc]
